@@ -2,6 +2,7 @@
 annotation and different iteration orders of one set/dict value must get the same verdict."""
 import json
 import _checker_common as K
+import _callable_common as KC
 
 RULE = ('as C01 (type-directed annotation terms, values generated to conform, corruptions, arbitrary values) and for every case up to three '
         're-spellings of the annotation (typing <-> PEP 585 at random nodes, Union / X|Y / Optional, shuffled Union members) and re-orderings '
@@ -70,16 +71,21 @@ def cases(rng, tier):
         for at in K.small_terms():
             for vt in vals:
                 out.append(add_alts(rng, K.mk_case(at, vt, kind='small')))
+    out += KC.gen_cases(rng, tier)          # simple Callable signatures (separate model PedVerif.Callable), with re-spellings
     return out
 
 
 def search(rng, tier, near):
-    return [add_alts(rng, c) for c in K.gen_checker_cases(rng, 30000)]
+    return [add_alts(rng, c) for c in K.gen_checker_cases(rng, 30000)] + KC.search(rng, tier, near)
 
 
 def run_impl(cases):
+    kc = [c for c in cases if c['m'] == 'callable']
+    kc_out = iter(KC.run_impl(kc)) if kc else iter(())
     out = []
     for c in cases:
+        if c['m'] == 'callable':
+            out.append(next(kc_out)); continue
         try:
             ao = K.build_ann(c['c']['ann'])
         except Exception as e:
@@ -99,6 +105,8 @@ FINDING_OF_REGION = [('strAnn', 'strAnnDeepSubclass'), ('namedtuple', 'namedtupl
 
 
 def judge(case, impl, model):
+    if case['m'] == 'callable':
+        return KC.judge_complete(case, impl, model)
     assert model['wf'], 'harness bug: value is not well-formed w.r.t. the class table: ' + json.dumps(case['c']['val'])
     io = impl['out']
     if io.startswith('unbuildable'):
